@@ -5,7 +5,16 @@ import subprocess, re, glob, os
 V = os.path.dirname(os.path.dirname(os.path.abspath(__file__)))
 BASE = "659c5ec"
 # property attribution by subject keyword (first match wins)
-RULES = [("evaluates binary operands left to right", "C12"), ("hashmap", "C17"), ("promotions to operands", "C01"), ("operand of unary +", "C01"), ("bit-field operands by their width", "C01"), ("enumerated type are converted", "C01"),
+RULES = [ ("'struct T;' declares a new incomplete", "C03"), ("selection and iteration statements", "C03"), ("function prototype scope for every", "C03"), ("outermost block of a function body are one scope", "C03"),
+ ("tag is in scope inside its own member list", "C03"), ("parameter is in scope for the rest", "C03"),
+ ("difference of two pointers to a variable length", "C04"), ("typedef'd variable length array type is evaluated once", "C04"),
+ ("#line inside an open conditional", "C10"), ("one void arm discards", "C20"), ("struct-valued statement expression", "C20"),
+ ("_Alignas specifiers the strictest", "C08"), ("_Alignof applied to an object", "C08"),
+ ("atomic operations on float and double", "C16"),
+ ("address of a sub-array element", "C05"), ("reached by brace elision initializes", "C05"), ("unnamed bit-fields take no initializer", "C05"), ("static bit-field of width 64", "C05"),
+ ("completed later gets the completed size", "C15"), ("function that is not emitted are not emitted", "C15"), ("static _Thread_local", "C15"),
+ ("only inside string literals and character constants", "C09"),
+ ("evaluates binary operands left to right", "C12"), ("hashmap", "C17"), ("promotions to operands", "C01"), ("operand of unary +", "C01"), ("bit-field operands by their width", "C01"), ("enumerated type are converted", "C01"),
  ("constant expressions in the type", "C07"), ("negative array designator", "C13"), ("-E separates", "C19"), ("-E prints", "C19"),
  ("long double to short", "C02"), ("unsigned long and floating", "C02"), ("NaN is nonzero", "C02"), ("floating constants once", "C02"), ("postfix ++/-- on floating", "C02"),
  ("va_arg(ap, long double)", "C06"), ("x87 register of a discarded", "C20"), ("caller's buffer in RAX", "C20"),
